@@ -50,6 +50,7 @@ class FakeTransport(asyncio.Transport):
             self.rig.record("transport_close", conn=self.conn_id)
         if not self.ended:
             self.ended = True
+            self.rig.live_set.discard(self.conn_id)
             self.rig.loop.call_soon(self._deliver_lost, None)
 
     def abort(self):
@@ -60,6 +61,7 @@ class FakeTransport(asyncio.Transport):
         if self.ended:
             return
         self.ended = True
+        self.rig.live_set.discard(self.conn_id)
         self.lost = True
         self.rig.record("loss", conn=self.conn_id)
         self.rig.last_loss_iter = self.rig.loop.iteration
@@ -89,6 +91,7 @@ class ManagerRig:
         self.events: list = []
         self.violations: list = []
         self.transports: list[FakeTransport] = []
+        self.live_set: set = set()
         self.attempts = 0
         self.in_flight = 0
         self.close_time = None
@@ -110,9 +113,12 @@ class ManagerRig:
         self.stop_reason = None
         self.sessions = 0
         self._auto_closed = False
+        self.frozen = False
 
     # -- recording ---------------------------------------------------------------------------
     def record(self, kind: str, **kw) -> None:
+        if self.frozen:  # teardown (task cancellation in set order) is not part of the history
+            return
         self.events.append((kind, round(self.loop.time(), 6), self.loop.iteration, tuple(sorted(kw.items()))))
 
     def violate(self, clause: str, facts: str, detail: str = "") -> None:
@@ -136,7 +142,7 @@ class ManagerRig:
             idx = rig.attempts
             rig.attempts += 1
             spec = rig._spec(idx)
-            live = [t.conn_id for t in rig.transports if t.live]
+            live = sorted(rig.live_set)
             rig.record("attempt_start", idx=idx, o=spec["o"], inflight=rig.in_flight, live=len(live))
             if live:
                 rig.violate("I2", "attempt-while-connection-live", f"attempt {idx} started while connection(s) {live} live")
@@ -158,6 +164,7 @@ class ManagerRig:
                     raise OSError(f"simulated connect failure #{idx}")
                 transport = FakeTransport(rig, len(rig.transports))
                 rig.transports.append(transport)
+                rig.live_set.add(transport.conn_id)
                 cls = rig.mc.SmartMeterMessagePayloadProtocol
                 hdlc, p1 = rig._readers
                 protocol = cls(rig.queue, [hdlc(False, True), p1()])
@@ -193,7 +200,7 @@ class ManagerRig:
     def phase(self) -> str:
         if not self.loop_running:
             return "loop_not_running"
-        if any(t.live and t.returned for t in self.transports):
+        if any(self.transports[c].returned for c in self.live_set):
             return "connected"
         if self.in_flight:
             return "pending_attempt"
@@ -202,7 +209,7 @@ class ManagerRig:
         return "backoff_sleep"
 
     def _monitor(self, loop) -> None:
-        live = sum(1 for t in self.transports if t.live)
+        live = len(self.live_set)
         if live > 1:
             self.violate("I1", "two-live-connections", f"{live} live connections at t={loop.time()}")
         ntasks = len(asyncio.all_tasks(loop))
@@ -316,6 +323,7 @@ class ManagerRig:
         self.end_time = loop.time()
         self.end_iter = loop.iteration
         self.pending_after = len(asyncio.all_tasks(loop))
+        self.frozen = True
         consumer.cancel()
         self._undo_clock()
         loop.shutdown()
